@@ -117,6 +117,21 @@ def handleGen (op : String) (j : Json) : Except String Json := do
       let sup := fun (s k : String) => (s == "Variables" || s == "") && ini.vars.any (fun p => p.1 == Atsim.norm k)
       return Json.mkObj [("has", arrJ (qs.map fun q => Json.bool (raw_has_option Atsim.strip sup ini.sections "Variables" q.1 q.2))),
                          ("xform", arrJ (qs.map fun q => Json.str (raw_optionxform Atsim.strip q.2)))]
+  | "parse_params_section" =>
+    -- ConfigParser._parse_params_section on a file given as lines: the parsed entries [key, value] of the named section (a key holding "bad" does not parse), or the error
+    let lines ← (← getArr j "lines").mapM parseLine
+    match readIni currentCfg lines with
+    | .error e => return Json.mkObj [("err", errJ' e)]
+    | .ok ini =>
+      let getV := fun (r : IniRec) (s k : String) => (((r.state.sections.find? fun p => p.1 == s).bind fun p => p.2.find? fun q => q.1 == Atsim.norm k).map (·.2)).getD ""
+      let keys := fun (r : IniRec) (s : String) => ((r.state.sections.find? fun p => p.1 == s).map fun p => p.2.map (·.1)).getD []
+      -- a parsed line is identified by its position among all (key, value) pairs of the file
+      let all := ini.sections.flatMap fun p => p.2
+      let parse := fun (k v : String) => if strContains k "bad" then (.error ParseErr.badLine : Except ParseErr ParsedLine) else .ok ⟨(all.findIdx? fun q => q.1 == k && q.2 == v).getD 9999⟩
+      let sec ← getStr j "section"
+      match parse_params_section hasSectionR keys getV (fun r => r.state.sections.map (·.1)) (fun r => r.state.vars.map (·.1)) (fun _ => false) (wrap ini) sec parse with
+      | .ok l => return arrJ (l.map fun x => match all[x.id]? with | some q => arrJ [Json.str q.1, Json.str q.2] | none => Json.null)
+      | .error e => return Json.str (match e with | .missingSection => "missingSection" | .badLine => "badLine")
   | "reference_get" =>
     -- Reference_Data.get: built-in rows and [Species] rows as [[species, [[property, value id], ...]], ...]; queries [[species, property], ...]
     let rows := fun (k : String) => do
